@@ -443,6 +443,76 @@ fn real_gap_job(src: Src) -> Job {
   })
 }
 
+/// A one-shot time source observed by a subscriber that reports itself finished
+/// after `k` notifications (`take(1)` below a timer answers that once the item
+/// has passed): "emit their item once ... and then complete" — the completion
+/// is still handed on (`on_complete`, `finalize`, `complete_status` above the
+/// `take` rely on it).
+fn sated_timer_job(src: Src, k: usize) -> Job {
+  let pipe = Pipe::S(src.clone());
+  Job::new(format!("sated-after-{k} {}", pipe.show()), move |_ch, obs| {
+    let mut r = Run::prepare(1, Form::Local);
+    let o = Sated { probe: r.probe.clone(), k };
+    r.sub = Sub::L(build_local(&pipe, &r.cx).actual_subscribe(o));
+    r.world.settle();
+    for _ in 0..6 {
+      r.world.drain_fifo(50);
+      r.world.advance(1);
+    }
+    r.world.drain_fifo(50);
+    obs.checks += 1;
+    let got = r.probe.notes();
+    let v = match &src {
+      Src::Timer(v, _) | Src::TimerAt(v, _) => *v,
+      _ => unreachable!(),
+    };
+    let full = vec![Note::N(V::I(v)), Note::C];
+    if !(got == full || (k == 0 && got == vec![Note::C])) {
+      obs.fail(
+        format!("c08:to-finished-observer:{}", super::c03::src_name(&src)),
+        format!(
+          "{src:?} observed by a subscriber that reports finished after {k} notifications: expected the item and then the completion, delivered [{}]",
+          fmt_notes(&got)
+        ),
+      );
+    }
+    obs.delivered = got.len() as u64;
+    obs.note_outcome(&got);
+  })
+}
+
+/// "never earlier than that": the instant of an `_at` source lives on the real
+/// clock. When the source asks the timer seam for its first wait, the real time
+/// of the request plus the requested duration must not lie before the instant
+/// (a duration rounded *down*, e.g. to whole milliseconds, does).
+fn instant_job(src: Src) -> Job {
+  let pipe = Pipe::S(src.clone());
+  Job::new(format!("{} first wait against the real clock", pipe.show()), move |_ch, obs| {
+    crate::ast::INSTANTS.with(|l| l.borrow_mut().clear());
+    let mut r = Run::prepare(1, Form::Local);
+    let op = build_local(&pipe, &r.cx);
+    let at = crate::ast::INSTANTS.with(|l| l.borrow().last().copied());
+    r.sub = Sub::L(op.actual_subscribe(r.probe.clone()));
+    r.world.settle();
+    r.world.drain_fifo(50);
+    obs.checks += 1;
+    if let (Some(at), Some(req)) = (at, world::timer_log().first().cloned()) {
+      if req.wall + req.dur < at {
+        obs.fail(
+          format!("c08:first-wait-ends-before-the-instant:{}", super::c03::src_name(&src)),
+          format!(
+            "{src:?}: the first timer was requested for {:?}, which ends {:?} before the given instant",
+            req.dur,
+            at - (req.wall + req.dur)
+          ),
+        );
+      }
+    }
+    obs.delivered = 1;
+    obs.note_outcome(&0u8);
+  })
+}
+
 fn relay_job(kind: Relay, script_len: usize, len: usize, devs: u32) -> Job {
   Job::new(format!("{kind:?} scripts<={script_len} L{len} d<={devs}"), move |ch, obs| {
     // the script is part of the explored space
@@ -606,6 +676,14 @@ pub fn plan(tier: Tier) -> Plan {
   // long bursts: many items ready within one poll of the relay task
   for src in [Src::Interval(1), Src::Interval(2), Src::Timer(7, 1)] {
     jobs.push(real_gap_job(src));
+  }
+  for src in [Src::IntervalAt(1, 1), Src::IntervalAt(2, 1), Src::IntervalAt(3, 2), Src::TimerAt(7, 1), Src::TimerAt(7, 2)] {
+    jobs.push(instant_job(src));
+  }
+  for src in [Src::Timer(7, 1), Src::Timer(7, 2), Src::TimerAt(7, 2), Src::TimerAt(7, -1)] {
+    for k in 0..3 {
+      jobs.push(sated_timer_job(src.clone(), k));
+    }
   }
   for n in [31usize, 32, 33, 100] {
     jobs.push(burst_job(n));
